@@ -344,6 +344,13 @@ def rule_e(ctx, out):
                         continue
                     op = d.value.value
                     n += 1
+                    # a re-labelled record must get all four sibling fields in the same block (a flag left over from the old
+                    # opcode is as wrong as a flag set to the wrong value)
+                    if "id" in fields:
+                        for need in ("opcode", "commutative"):
+                            if need not in fields:
+                                out.bad(f"relabel:{f.name}:{op}:{need}-not-updated", f"{f.name} re-labels `{recv}` to {op} (id, disasm) but does not assign "
+                                        f"`{recv}[\"{need}\"]` in the same block: the record keeps the {need} of its previous opcode", where(f, d))
                     if "id" in fields:
                         idv = fields["id"].value
                         lits = [x.value for x in ast.walk(idv) if isinstance(x, ast.Constant) and isinstance(x.value, str)]
